@@ -10,10 +10,11 @@ from engine.sx import SNum, Tok, zand, _z, _real
 PROPERTY = "C31"
 BOUNDS = {
     "quick": "measurements with 2..4 ensemble members x 1 pixel and 2 members x 2 pixels, evaluated as one block and as nblocks equal-sized blocks (nblocks symbolic, case-split 1..n); "
-             "seed symbolic; signal*dose symbolic; the random generator is an uninterpreted function draw(seed', position, lambda) with seed' = mix(seed)",
+             "seed symbolic; signal*dose symbolic; rate cases: dose > 0 and signals of any sign symbolic on 2x1 and 2x2 arrays; the random generator is an uninterpreted function draw(seed', position, lambda) with seed' = mix(seed)",
     "thorough": "up to 6 members",
 }
-OUTSIDE = ["distributional facts (non-negative whole counts, mean = dose x signal): properties of numpy's generator, not of abTEM code", "the dask graph: a lazy evaluation with k blocks is "
+OUTSIDE = ["distributional facts of numpy's generator itself (whole non-negative counts with the mean it is given); decided here is that the rate abTEM hands it is dose x max(signal, 0)",
+           "the conversion of dose_per_area / total_dose into the per-pixel dose (BaseMeasurements.poisson_noise)", "the dask graph: a lazy evaluation with k blocks is "
            "reproduced by calling the real per-block function on each block, which is what apply_transform does"]
 STUBS = ["np.random.default_rng(seed).integers(...) -> mix(seed)", "np.random.RandomState(seed').poisson(array) -> elementwise draw(seed', flat position in the block, lambda)"]
 ASSUMPTIONS = ["the generator contract used: equal (seed', position, lambda) give equal counts; unequal (seed', position) give independent counts"]
@@ -45,7 +46,7 @@ class _Poisson:
         out = np.empty(lam.shape, dtype=object)
         for pos, idx in enumerate(np.ndindex(lam.shape)):
             out[idx] = SNum(DRAW(_z(self.seed), z3.IntVal(pos), _real(_z(lam[idx]))))
-            _Poisson.log.append((self.seed, pos))
+            _Poisson.log.append((self.seed, pos, lam[idx]))
         return out.view(snp.SymArr)
 
 
@@ -97,6 +98,55 @@ def _noise(shape):
     return fn
 
 
+def _rate(shape):
+    """the rate handed to the generator for element i is dose * max(signal_i, 0): whole counts with expectation dose x signal"""
+    rp = R_RATE(shape)
+
+    def fn(c):
+        seed = c.int("seed", 0, 2**31 - 1)
+        d = c.real("dose", 0, lo_strict=True)
+        sig = sx.sym_array(c, "sig", shape)
+        T = N.NoiseTransform(dose=d, seeds=seed)
+        _Poisson.log = []
+        np.asarray(T._calculate_new_array(_Obj(sig.copy())), dtype=object)
+        log = list(_Poisson.log)
+        flat = list(np.asarray(sig, dtype=object).ravel())
+        ok = [len(log) == len(flat)]
+        for (sd, pos, lam), a in zip(log, flat):
+            ok.append(_real(_z(lam)) == z3.If(_z(a) > 0, _z(a) * _z(d), z3.RealVal(0)))
+        c.prove("noise.rate_is_dose_times_nonnegative_signal", zand(*ok), replay=rp)
+        c.canary("noise.canary_rate_is_signal", zand(*[_real(_z(lam)) == _z(a) for (sd, pos, lam), a in zip(log, flat)]))
+    return fn
+
+
+def R_RATE(shape):
+    return make("""
+    import abtem
+    from abtem.noise import NoiseTransform
+    from abtem.measurements import Images
+    sig = np.array([float(V[k]) for k in sorted(V) if k.startswith('sig_')], dtype=np.float64).reshape(SHAPE)
+    dose = float(V['dose'])
+    seen = {}
+    import numpy.random as R
+    real = R.RandomState.poisson
+    class Spy(R.RandomState):
+        def poisson(self, lam, *a, **k):
+            seen['lam'] = np.array(lam, dtype=np.float64)
+            return real(self, np.clip(lam, 0, 1e9), *a, **k)
+    import abtem.noise as N
+    N.np.random.RandomState, keep = Spy, N.np.random.RandomState
+    try:
+        class O: pass
+        o = O(); o._eager_array = sig.astype(np.float64)
+        NoiseTransform(dose=dose, seeds=int(V['seed']))._calculate_new_array(o)
+    finally:
+        N.np.random.RandomState = keep
+    want = np.clip(sig, 0, None) * dose
+    got = seen['lam'].reshape(want.shape)
+    if np.abs(got - want).max() > 1e-5 * max(1.0, np.abs(want).max()): bad, why = True, f"rates handed to the Poisson generator {got.ravel().tolist()} != dose*signal {want.ravel().tolist()}"
+""", SHAPE=tuple(shape))
+
+
 def R_N(shape):
     return make("""
     import abtem, dask
@@ -122,4 +172,6 @@ def cases(tier):
     out = []
     for shape in ((2, 1), (3, 1), (4, 1), (2, 2)) if q else ((2, 1), (3, 1), (4, 1), (2, 2), (6, 1), (4, 2)):
         out.append(Case("noise." + "x".join(map(str, shape)), _noise(shape), setup=_setup, max_paths=400))
+    for shape in ((2, 1), (2, 2)) if q else ((2, 1), (2, 2), (3, 2)):
+        out.append(Case("rate." + "x".join(map(str, shape)), _rate(shape), setup=_setup, max_paths=400))
     return out
